@@ -845,3 +845,191 @@ Proof.
   cbv zeta. repeat split; vm_compute; repeat eexists.
 Qed.
 End CheckExamples.
+
+(* ================= Log Nice with an end LEFT IN PLACE by the repair of D10 ================= *)
+(* (helper hM-c17; proofs in Proofs/TicksLogNice2.v)
+   For a positive Log domain emin < emax whose Nice found level l and the candidate ends
+   nmn = b^(f 2^l), nmx = b^(la 2^l): mvlo / mvhi say whether Nice moved the lower / upper end
+   (log.go:233, 236: outwards only, and only to a positive finite float64 power), [a, c] is the
+   niced domain.  HYPOTHESES about an end that was LEFT IN PLACE (none about an end that moved):
+   its rounding-out decision was N_inside (the end lies within the slack of the power next to it),
+   and that three-valued decision, re-taken for the niced domain - with the other end's new
+   position in the ratio t and in mu - is not N_border ([decided]; first conjunct: this follows
+   from le_amb (log_exps b a c) = false, i.e. the check does not call the niced domain borderline).
+   Then  log_nice b emin emax o = (a, c)  and  Nice is IDEMPOTENT: log_nice b a c o = (a, c);
+   and if the candidate of an unmoved end lies strictly beyond it (the D10 situation: the end is
+   just inside the power), the first / last major tick of Ticks on [a, c] is nmn / nmx: the new
+   end itself for an end that moved, the power that the unmoved end is within the slack of
+   (N_inside for the niced domain) otherwise.
+   The hypothesis [decided] cannot be dropped IN THE MODEL: the re-taken decision can come out
+   N_border (mu depends on the bit lengths of the ends, so it is not monotone in the domain), the
+   model treats N_border as "not inside" and its second Nice then moves the end
+   (C17_log_nice_model_not_idempotent_refuted; the Go code is idempotent on that input, and the
+   check accepts either outcome there because le_amb = true).
+   Last conjunct: for idempotence alone it is enough that the rounding-out decision of every
+   unmoved end selects the same exponent for the niced domain, whatever the decision was. *)
+From MM Require Import Proofs.TicksLogNice2.
+Section LogNiceUnmoved.
+Local Open Scope Z_scope.
+Theorem C17_log_nice_idempotent_with_unmoved_end : forall b emin emax o l, 2 <= b -> (0 < emin)%Q -> (emin < emax)%Q ->
+  let e := log_exps b emin emax in
+  le_out_lo e < le_out_hi e -> log_count e true 0 <= MAXINT -> o_max o < MAXINT ->
+  find_level o (log_count e true) 0 = FL_ok l ->
+  let f := fst (log_first_last e true l) in let la := snd (log_first_last e true l) in
+  (la * 2 ^ l - f * 2 ^ l + 1 <= MAXINT) ->
+  let nmn := qpow b (f * 2 ^ l) in let nmx := qpow b (la * 2 ^ l) in
+  let mvlo := log_end_ok b (2 ^ l) f nmn && Qleb nmn emin in
+  let mvhi := log_end_ok b (2 ^ l) la nmx && Qleb emax nmx in
+  let a := if mvlo then nmn else emin in let c := if mvhi then nmx else emax in
+  let decided :=
+    (mvlo = false -> near emin (qpow b (ceil_log b emin)) (c / a) (log_mu a c) <> N_border) /\
+    (mvhi = false -> near (qpow b (floor_log b emax)) emax (c / a) (log_mu a c) <> N_border) in
+  (le_amb (log_exps b a c) = false -> decided) /\
+  ((mvlo = false -> near emin (qpow b (ceil_log b emin)) (emax / emin) (log_mu emin emax) = N_inside) ->
+   (mvhi = false -> near (qpow b (floor_log b emax)) emax (emax / emin) (log_mu emin emax) = N_inside) ->
+   decided ->
+   log_nice b emin emax o = (a, c) /\ log_nice b a c o = (a, c) /\
+   ((mvlo = false -> Qleb nmn emin = false) -> (mvhi = false -> Qleb emax nmx = false) ->
+    forall major minor, log_ticks b a c o = TR_ticks major minor ->
+    (exists rest, major = nmn :: rest) /\ (forall d, last major d = nmx) /\
+    (mvlo = true -> a = nmn) /\ (mvhi = true -> c = nmx) /\
+    (mvlo = false -> a = emin /\ near a nmn (c / a) (log_mu a c) = N_inside) /\
+    (mvhi = false -> c = emax /\ near nmx c (c / a) (log_mu a c) = N_inside))) /\
+  (* idempotence alone: it is enough that the rounding-out decision of each unmoved end selects the
+     same exponent for the niced domain (whatever the decision was) *)
+  ((mvlo = false -> isin3 (near emin (qpow b (ceil_log b emin)) (c / a) (log_mu a c)) =
+                    isin3 (near emin (qpow b (ceil_log b emin)) (emax / emin) (log_mu emin emax))) ->
+   (mvhi = false -> isin3 (near (qpow b (floor_log b emax)) emax (c / a) (log_mu a c)) =
+                    isin3 (near (qpow b (floor_log b emax)) emax (emax / emin) (log_mu emin emax))) ->
+   log_nice b emin emax o = (a, c) /\ log_nice b a c o = (a, c)).
+Proof. exact log_nice_idempotent_with_unmoved_end. Qed.
+Print Assumptions C17_log_nice_idempotent_with_unmoved_end.
+
+(* non-vacuity, lower end left in place: [10 (1 - 1e-12), 2000] base 10, Max 4: level 0, candidates
+   10 (> emin: stays, decision N_inside) and 10^4 (moves); the niced domain has no undecided
+   decision; Nice again: the same; Ticks: 10 .. 10^4.  Mirrored: [3, 1000 (1 + 1e-12)]. *)
+Example C17_log_nice_unmoved_end_example :
+  let emin := (999999999999 # 100000000000)%Q in let o := mkOpts 4 0 0 in
+  let e := log_exps 10 emin 2000 in
+  le_out_lo e < le_out_hi e /\ find_level o (log_count e true) 0 = FL_ok 0 /\ log_first_last e true 0 = (1, 4) /\
+  log_end_ok 10 1 1 10 && Qleb 10 emin = false /\ Qleb 10 emin = false /\
+  log_end_ok 10 1 4 10000 && Qleb 2000 10000 = true /\
+  near emin (qpow 10 (ceil_log 10 emin)) (2000 / emin) (log_mu emin 2000) = N_inside /\
+  le_amb (log_exps 10 emin 10000) = false /\
+  log_nice 10 emin 2000 o = (emin, 10000%Q) /\ log_nice 10 emin 10000 o = (emin, 10000%Q) /\
+  (exists mi, log_ticks 10 emin 10000 o = TR_ticks [10%Q; 100%Q; 1000%Q; 10000%Q] mi) /\
+  let emax := (1000000000001 # 1000000000)%Q in
+  let e2 := log_exps 10 3 emax in
+  find_level o (log_count e2 true) 0 = FL_ok 0 /\ log_first_last e2 true 0 = (0, 3) /\
+  log_end_ok 10 1 3 1000 && Qleb emax 1000 = false /\
+  near (qpow 10 (floor_log 10 emax)) emax (emax / 3) (log_mu 3 emax) = N_inside /\
+  le_amb (log_exps 10 1 emax) = false /\
+  log_nice 10 3 emax o = (1%Q, emax) /\ log_nice 10 1 emax o = (1%Q, emax) /\
+  (exists mi, log_ticks 10 1 emax o = TR_ticks [1%Q; 10%Q; 100%Q; 1000%Q] mi) /\
+  (* last conjunct: base 16, level forced to 8 (effective base 16^256 = 2^1024 beyond float64): the
+     upper candidate is not representable, the end 20000 stays although its decision is N_outside,
+     and it is N_outside again for the niced domain [1, 20000] *)
+  let o2 := mkOpts 3 8 8 in let e3 := log_exps 16 3 20000 in
+  find_level o2 (log_count e3 true) 0 = FL_ok 8 /\ log_first_last e3 true 8 = (0, 1) /\
+  log_end_ok 16 (2 ^ 8) 1 (qpow 16 256) = false /\
+  near (qpow 16 3) 20000 (20000 / 3) (log_mu 3 20000) = N_outside /\
+  near (qpow 16 3) 20000 (20000 / 1) (log_mu 1 20000) = N_outside /\
+  log_nice 16 3 20000 o2 = (1%Q, 20000%Q) /\ log_nice 16 1 20000 o2 = (1%Q, 20000%Q).
+Proof. vm_compute. repeat split; try reflexivity; eexists; reflexivity. Qed.
+
+(* THE EXACT MODEL IS NOT IDEMPOTENT where the re-taken decision is undecided: base 2, Max 6,
+   [(2^53 - 896451)/2^53, 3 2^100] (two float64 values): Nice leaves the lower end (N_inside, within
+   the slack below 1) and moves the upper one to 2^128; for [emin, 2^128] mu is larger (2^128 has more
+   bits than 3 2^100), the decision comes out N_border (le_amb = true), the model's second Nice
+   moves the lower end to 2^-32.  scale.Log.Nice on these float64 values: [emin, 2^128] both times. *)
+Example C17_log_nice_model_not_idempotent_refuted :
+  exists b mn mx o mn1 mx1, 2 <= b /\ (0 < mn)%Q /\ (mn < mx)%Q /\ 3 <= o_max o /\
+    log_nice b mn mx o = (mn1, mx1) /\ mn1 = mn /\ le_amb (log_exps b mn mx) = false /\
+    le_amb (log_exps b mn1 mx1) = true /\
+    log_nice b mn1 mx1 o = (qpow 2 (-32), mx1) /\ ~ (qpow 2 (-32) == mn1)%Q.
+Proof. exact log_nice_model_not_idempotent_refuted. Qed.
+End LogNiceUnmoved.
+
+Local Open Scope Z_scope.
+
+(* ================= (group hM) the exponent interval of log_exps is the real-valued one ================= *)
+(* Composition of C17_floor_log_is_floor_of_log / C17_ceil_log_is_ceil_of_log with C17_near_inside_sound /
+   C17_near_outside_sound into ONE statement: on a positive domain emin <= emax whose ends are within a factor
+   Base^k, k < 10^10 (so that the slack is below 1; every float64 domain is), if no slack decision of log_exps is
+   undecided (le_amb = false) then with lmin = log_b emin, lmax = log_b emax, slack = 1e-10 (lmax - lmin)
+   (log.go:111-131):
+      le_in_lo  = ceil (lmin - slack),  le_in_hi  = floor (lmax + slack)    (ticks inside the domain)
+      le_out_lo = floor (lmin + slack), le_out_hi = ceil (lmax - slack)     (Nice: rounding out)
+   floor and ceil stated by their universal properties over the integers.  Real numbers: stdlib axioms. *)
+From MM Require Import Proofs.TicksLogExpR.
+Theorem C17_log_exps_are_real_valued : forall (b : Z) (emin emax : Q) (k : Z), 2 <= b -> (0 < emin)%Q -> (emin <= emax)%Q ->
+  0 <= k < 10 ^ 10 -> (emax <= emin * qpow b k)%Q ->
+  le_amb (log_exps b emin emax) = false ->
+  let lmin := (ln (Q2R emin) / ln (IZR b))%R in
+  let lmax := (ln (Q2R emax) / ln (IZR b))%R in
+  let slack := (Q2R slack_factor * (lmax - lmin))%R in
+  let e := log_exps b emin emax in
+  (forall n : Z, le_in_lo e <= n <-> (lmin - slack <= IZR n)%R) /\
+  (forall n : Z, n <= le_in_hi e <-> (IZR n <= lmax + slack)%R) /\
+  (forall n : Z, n <= le_out_lo e <-> (IZR n <= lmin + slack)%R) /\
+  (forall n : Z, le_out_hi e <= n <-> (lmax - slack <= IZR n)%R).
+Proof. exact log_exps_real_q. Qed.
+Print Assumptions C17_log_exps_are_real_valued.
+Example C17_log_exps_real_example :
+  log_exps 10 3 2000 = mkLE 1 3 0 4 false /\ Qle_bool 2000 (3 * qpow 10 3) = true.
+Proof. vm_compute. split; reflexivity. Qed.
+
+(* (group hM) three facts that close gaps of the Log statements above.
+   (1) On a domain whose folded ends are positive finite float64 values, every admitted exponent of every base >= 2
+   lies in [-1074, 1024] and the level-0 counts are at most 2100 <= maxInt: the hypotheses
+   `log_count e _ 0 <= MAXINT` of C17_log_ticks_at_level / C17_log_ticks / C17_log_nice_count_nonincreasing hold on
+   every domain the Go code can hold.  (2) Nice on a NEGATIVE domain mn < mx < 0: each new end is the old one or
+   minus a power of the base that is a positive finite float64 (mirror image of C17_log_nice_ends_are_powers).
+   (3) The minor-tick list (TicksAtLevel below level 0) is strictly ascending on the folded positive domain; with
+   the membership statement log_minor_ticks_spec the list is determined.  (4) EVERY Log case the comparator
+   parses (p_sccase, ends decoded from float64 bit patterns, log_pre = the kind-2 precondition of accept_parse)
+   has folded ends that are positive finite float64 values, so by (1) the hypothesis
+   `log_count e false 0 <= MAXINT` in the Log readings of C17_check_meaning_scales holds for every accepted
+   kind-2 line (proof: a finite non-zero value decoded from ANY bit pattern has magnitude in [2^-1074, 2^1024),
+   Proofs/CheckC17LogRange.v decode_fin_range). *)
+From Coq Require Import Sorted.
+From MM Require Import Proofs.TicksLogGroupM.
+Theorem C17_log_float_domain_facts :
+  (forall b emin emax, 2 <= b -> f64_pos_ok emin = true -> f64_pos_ok emax = true ->
+     let e := log_exps b emin emax in
+     log_count e false 0 <= 2100 /\ log_count e true 0 <= 2100 /\ 2100 <= MAXINT /\
+     -1074 <= le_in_lo e <= 1024 /\ -1074 <= le_in_hi e <= 1024 /\ -1074 <= le_out_lo e <= 1024 /\ -1074 <= le_out_hi e <= 1024) /\
+  (forall b mn mx o a c, (mx < 0)%Q -> (mn < mx)%Q -> log_nice b mn mx o = (a, c) ->
+     ((a == mn)%Q \/ exists n, a = (- qpow b n)%Q /\ f64_pos_ok (qpow b n) = true) /\
+     ((c == mx)%Q \/ exists n, c = (- qpow b n)%Q /\ f64_pos_ok (qpow b n) = true)) /\
+  (forall b e emin emax ro l, 2 <= b -> l < 0 -> StronglySorted Qlt (log_ticks_pos b e emin emax ro l)) /\
+  (forall r c r', p_sccase r = Some (c, r') -> log_pre (sc_base c) (sc_mn c) (sc_mx c) = true ->
+     let e := log_e (sc_base c) (sc_mn c) (sc_mx c) in
+     (f64_pos_ok (lf_emin (sc_mn c) (sc_mx c)) = true /\ f64_pos_ok (lf_emax (sc_mn c) (sc_mx c)) = true) /\
+     log_count e false 0 <= MAXINT /\ log_count e true 0 <= MAXINT).
+Proof. exact log_float_domain_facts. Qed.
+Print Assumptions C17_log_float_domain_facts.
+Example C17_log_float_domain_example :
+  f64_pos_ok (3 # 1000) = true /\ f64_pos_ok 2000 = true /\
+  log_ticks_pos 10 (log_exps 10 3 45) 3 45 false (-1) = [3; 4; 5; 6; 7; 8; 9; 10; 20; 30; 40]%Q.
+Proof. vm_compute. repeat split; reflexivity. Qed.
+
+(* (group hM) With the REAL-valued slack rule of log.go:118-128 the rounding-out exponent of an end that Nice left
+   in place is the same for the niced domain (the slack only grows when the other end moves outwards), and an end
+   that landed on an integer exponent rounds out to it again: lmin, lmax = logarithms of the ends to the effective
+   base, s = 1e-10, c = the exponent the unmoved end lies within the slack of, lmax' / lmin' = the other end after
+   Nice.  (1) floor (lmin + s (lmax' - lmin)) = c; (2) ceil (lmax - s (lmax - lmin')) = c; (3) floor (H + slack) =
+   ceil (H - slack) = H for 0 <= slack < 1.  So the model's non-idempotence where the re-taken decision is N_border
+   (C17_log_nice_model_not_idempotent_refuted) is an artefact of its three-valued decision, not of the rule. *)
+From MM Require Import Proofs.TicksLogNiceR.
+Theorem C17_real_slack_rule_is_stable :
+  (forall (s lmin lmax lmax' : R) (c : Z), (0 <= s)%R -> (lmax <= lmax')%R -> (s * (lmax' - lmin) < 1)%R ->
+     (lmin <= IZR c)%R -> (IZR c - lmin <= s * (lmax - lmin))%R ->
+     forall n : Z, (IZR n <= lmin + s * (lmax' - lmin))%R <-> n <= c) /\
+  (forall (s lmin lmin' lmax : R) (c : Z), (0 <= s)%R -> (lmin' <= lmin)%R -> (s * (lmax - lmin') < 1)%R ->
+     (IZR c <= lmax)%R -> (lmax - IZR c <= s * (lmax - lmin))%R ->
+     forall n : Z, (lmax - s * (lmax - lmin') <= IZR n)%R <-> c <= n) /\
+  (forall (slack : R) (H : Z), (0 <= slack < 1)%R ->
+     (forall n : Z, (IZR n <= IZR H + slack)%R <-> n <= H) /\ (forall n : Z, (IZR H - slack <= IZR n)%R <-> H <= n)).
+Proof. exact slack_rule_stable. Qed.
+Print Assumptions C17_real_slack_rule_is_stable.
